@@ -130,16 +130,16 @@ func RandBody(g *mon.Rand, big bool) []byte {
 
 // BundleOpts selects the shape of a generated bundle.
 type BundleOpts struct {
-	Version    version.Version
-	NEx        int  // number of plain exchanges
-	Big        int  // how many of them get a > 64 KiB body
-	Primary    bool // b2: add a primary section (b1 always has the header field)
-	Manifest   bool // b1 only
-	Signatures bool // structural signatures section (random sig/signed bytes)
-	VariantSets int // b1 only: number of URLs with complete variant sets
-	MultiKey   bool // use a multi-key Variant-Key entry in the variant sets
-	Certs      []*certurl.AugmentedCertificate
-	Twins      int // extra exchanges whose status, headers and body are byte-identical to an earlier exchange (other URL)
+	Version     version.Version
+	NEx         int  // number of plain exchanges
+	Big         int  // how many of them get a > 64 KiB body
+	Primary     bool // b2: add a primary section (b1 always has the header field)
+	Manifest    bool // b1 only
+	Signatures  bool // structural signatures section (random sig/signed bytes)
+	VariantSets int  // b1 only: number of URLs with complete variant sets
+	MultiKey    bool // use a multi-key Variant-Key entry in the variant sets
+	Certs       []*certurl.AugmentedCertificate
+	Twins       int // extra exchanges whose status, headers and body are byte-identical to an earlier exchange (other URL)
 }
 
 // VariantSet describes one generated variants URL.
